@@ -416,6 +416,8 @@ def run_queue_check(prop, tier, seed):
         for i, o in zip(hdis_idx, again):
             if o.replace("k?", "k") == hmodel[i]:
                 himpl[i] = hmodel[i]
+    # extraction + glue against the kernel: sampled scripted histories proved by vm_compute
+    common.kernel_crosscheck(rep, "queue", [as_plain_drop(c) for c in cases if c.startswith("Q ")], 200 if thorough else 60)
     failures = []
     for c, o in zip(cases, impl):
         for pid, msg in judge(c, o):
